@@ -24,8 +24,10 @@ ALLOWED_AXIOMS = {
 }
 TRUSTED_BASE = [
     "Coq 8.16.1 kernel (coqc full .vo build; no native_compute; vm_compute only in non-vacuity Examples)",
-    "extraction plugin with ExtrOcamlBasic only (Extract Inductive bool/option/unit/list/prod/sumbool/sumor, "
-    "Extract Inlined Constant fst/snd/andb/orb/negb); no Extract Constant; nat stays Peano",
+    "extraction plugin with ExtrOcamlBasic only: Extract Inductive bool => bool [true false]; option => option "
+    "[Some None]; unit => unit [()]; list => list [[] (::)]; prod => (*) []; sumbool => bool [true false]; "
+    "sumor => option [Some None]; Extract Inlined Constant andb => (&&); orb => (||). No Extract Constant / "
+    "Extract Inductive of our own; nat and Z stay the extracted Peano / binary datatypes",
     "OCaml 4.13.1 ocamlopt; /verif/ocaml/driver.ml (float instance of the Ops record, token reader, %h printer)",
     "float gap: theorems hold for every commutative (ordered) ring/field instance of Ops; the run instance is "
     "IEEE float64, compared at rel. 1e-9 with exact zeros required to match",
